@@ -227,3 +227,37 @@ Proof.
     rewrite Hp4, <- app_assoc in R2. rewrite R2. cbn [bind]. reflexivity.
 Qed.
 Print Assumptions C20_module.
+
+(* ---------- ids past the table, and the module iterator ---------- *)
+Theorem C20_past_table b id : fits b -> zlen (ab_modules b) <= id ->
+  exists p, parse (layout b) = Ok p /\ get_module p id = Err ERamIndex.
+Proof.
+  intros Hfit Hid. destruct (C20_parse b Hfit) as (p & Hp & Hcount & _).
+  exists p. split; [exact Hp|]. unfold get_module. rewrite Hcount.
+  destruct (Z.leb_spec (zlen (ab_modules b)) id); [reflexivity|lia].
+Qed.
+
+Fixpoint present (ms : list (option bytes)) (id : Z) : list (outcome (Z * bytes)) :=
+  match ms with
+  | [] => []
+  | None :: r => present r (id + 1)
+  | Some d :: r => Ok (id, d) :: present r (id + 1)
+  end.
+
+Theorem C20_iter b : fits b ->
+  exists p, parse (layout b) = Ok p /\ iter_modules p = present (ab_modules b) 0.
+Proof.
+  intros Hfit. destruct (C20_parse b Hfit) as (p & Hp & Hcount & _).
+  exists p. split; [exact Hp|]. unfold iter_modules. rewrite Hcount.
+  assert (Hgen : forall rest pre, ab_modules b = pre ++ rest ->
+            iter_from p (length rest) (zlen pre) = present rest (zlen pre)).
+  { induction rest as [|x rest IH]; intros pre Hms; [reflexivity|].
+    destruct (C20_module b pre x rest Hfit Hms) as (p' & Hp' & Hget).
+    assert (p' = p) by congruence. subst p'.
+    cbn [length iter_from present]. rewrite Hget.
+    assert (Hnext : zlen pre + 1 = zlen (pre ++ [x])) by (unfold zlen; rewrite app_length; cbn [length]; lia).
+    specialize (IH (pre ++ [x])). rewrite <- app_assoc in IH. cbn [app] in IH. specialize (IH Hms).
+    rewrite Hnext. destruct x as [d|]; rewrite IH; reflexivity. }
+  specialize (Hgen (ab_modules b) [] eq_refl). change (zlen (@nil (option bytes))) with 0 in Hgen.
+  unfold zlen. rewrite Nat2Z.id. exact Hgen.
+Qed.
